@@ -36,7 +36,7 @@ LEDGER = {
     ('adlt::dlt::DltChar4::from_buf', 'assert_eq!'): 'fixed-width: callers pass constant 4-byte ranges / [u8;4]',
     ('adlt::lifecycle::Lifecycle::merge', 'assert_ne!'): 'internal consistency: a merged (count 0) lifecycle is removed from its ECU list before any further merge',
     ('adlt::lifecycle::parse_lifecycles_buffered_from_stream', 'assert!'): 'internal consistency of buffered_lcs (prev buffered => newer buffered); unconfirmed candidate, no failing stream found',
-    ('adlt::lifecycle::get_sorted_lifecycles_as_vec::{closure#0}', 'assert_eq!'): 'map key equals the id stored in the value (only this stage inserts)',
+    ('adlt::lifecycle::get_sorted_lifecycles_as_vec', 'assert_eq!'): 'map key equals the id stored in the value (only this stage inserts)',
     ('<adlt::plugins::export::ExportPlugin as adlt::plugins::plugin::Plugin>::process_msg', 'panic!'): 'reachable exactly when a message is delivered before its lifecycle is published (C06)',
     ('adlt::utils::lowmarkbufreader::LowMarkBufReader::<R>::new', 'assert!'): 'configuration: constructor arguments only (checked for production call sites under C04 M1)',
 }
@@ -182,7 +182,7 @@ def check_b2(lib, B2):
             mac = (m or ['?'])[-1]
             if mac in ('unwrap', 'expect') or 'format' in mac:
                 continue
-            key = (b.path, mac)
+            key = (b.closure_of or b.path, mac)     # a closure body counts as part of its function (for-loop vs .map(|..| ..))
             seen.setdefault(key, []).append(b.loc(blk.term.sp))
     B2.sites += sum(len(v) for v in seen.values())
     for key, locs in sorted(seen.items()):
@@ -249,6 +249,92 @@ def clamp_before(cfg, E, body, blk, a, b):
         if stored:
             return 'clamped: if %s { %s = %s }' % (show(c2)[:50], show(b), show(a))
     return None
+
+
+def ssa_root(cfg, o, depth=0):
+    """value identity of an operand: follow single-definition copies / moves / borrows (named or not - pattern bindings of a
+    temporary are such copies) back to the local that was actually computed.  Returns a local index or None."""
+    if o.place is None or depth > 10:
+        return None
+    pl = o.place
+    if pl.p and not all(e['k'] == 'deref' for e in pl.p):
+        return None
+    sd = cfg.single_def(pl.l)
+    if pl.l <= cfg.body.arg_count or sd is None or sd[1] == 'call':
+        return pl.l
+    rv = sd[2].rv
+    if rv['k'] == 'use':
+        nxt = Operand(rv['o'])
+        if nxt.place is not None:
+            r = ssa_root(cfg, nxt, depth + 1)
+            return r if r is not None else pl.l
+    if rv['k'] in ('ref', 'rawptr'):
+        r = ssa_root(cfg, Operand({'k': 'copy', 'p': rv['p']}), depth + 1)
+        return r if r is not None else pl.l
+    return pl.l
+
+
+def mir_known_le(cfg, bi):
+    """[(lo operand, hi operand)] comparisons lo <= hi that hold on entry to block bi, read off the MIR of the dominating
+    switches (so operands keep their identity even when two locals share a source name)"""
+    out = []
+    body = cfg.body
+    for (D, S, v, allvals) in guards.dominating_edges(cfg, bi):
+        t = body.blocks[D].term
+        o = Operand(t.d['d'])
+        if o.place is None or not o.place.is_local:
+            continue
+        sd = cfg.single_def(o.place.l)
+        if sd is None or sd[1] == 'call' or sd[2].rv['k'] != 'bin':
+            continue
+        rv = sd[2].rv
+        if v is None:
+            truth = True if allvals == [0] else None
+        else:
+            truth = (v != 0)
+        if truth is None:
+            continue
+        A, B = Operand(rv['a']), Operand(rv['b'])
+        op = rv['op']
+        if not truth:
+            op = {'Gt': 'Le', 'Ge': 'Lt', 'Lt': 'Ge', 'Le': 'Gt'}.get(op)
+        if op in ('Le', 'Lt'):
+            out.append((A, B))
+        elif op in ('Ge', 'Gt'):
+            out.append((B, A))
+    return out
+
+
+def phi_bounded_ssa(cfg, body, blk):
+    """a - b where b is a multi-definition local: every definition is 0, a itself, or a value v with a dominating v <= a,
+    decided on value identities (ssa_root) instead of names"""
+    a_op, b_op = Operand(blk.term.d['ops'][0]), Operand(blk.term.d['ops'][1])
+    ra = ssa_root(cfg, a_op)
+    if ra is None or b_op.place is None or not b_op.place.is_local:
+        return None
+    bl = b_op.place.l
+    sd = cfg.single_def(bl)
+    if sd is not None and sd[1] != 'call' and sd[2].rv['k'] == 'use' and Operand(sd[2].rv['o']).place is not None and Operand(sd[2].rv['o']).place.is_local:
+        bl = Operand(sd[2].rv['o']).place.l     # temp copy of the named local
+    defs = cfg.defs.get(bl, [])
+    if len(defs) < 2:
+        return None
+    for (bi, si, d) in defs:
+        if si == 'call' or d.rv['k'] != 'use':
+            return None
+        o = Operand(d.rv['o'])
+        if o.is_const:
+            if o.value == 0:
+                continue
+            return None
+        r = ssa_root(cfg, o)
+        if r is None:
+            return None
+        if r == ra:
+            continue
+        if not any(ssa_root(cfg, lo) == r and ssa_root(cfg, hi) == ra for (lo, hi) in mir_known_le(cfg, bi)):
+            return None
+    return 'every definition of the subtrahend is 0, the minuend itself, or a value with a dominating `value <= minuend` test (value identities)'
 
 
 def phi_bounded(cfg, E, body, a, b, blk=None):
@@ -403,6 +489,8 @@ def check_b3(lib, B3):
                 why = clamp_before(cfg, E, b, blk, a, bb)
             if why is None:
                 why = phi_bounded(cfg, E, b, a, bb, blk)
+            if why is None:
+                why = phi_bounded_ssa(cfg, b, blk)
             if why is None:
                 why = counter_tested_nonzero(cfg, E, b, blk)
             key = (b.path, re.sub(r'_\d+', '_tmp', show(a)[:60]), re.sub(r'_\d+', '_tmp', show(bb)[:60]))
